@@ -587,4 +587,72 @@ Section HistoryP.
       intros e He. specialize (Hf e He). unfold klt in Hf.
       pose proof (sorted_last_max t lk e Rs Hlk He). lia.
   Qed.
+
+  (* ---------- a whole run of one history object against the abstract function ---------- *)
+
+  Definition s_step (Sc : spec * N) (o : @hop V) : spec * N :=
+    match o with
+    | HSet b v => (s_set (fst Sc) b (Some v), N.max (snd Sc) b)
+    | HUnset b => (s_set (fst Sc) b None, N.max (snd Sc) b)
+    | HReorg n => (s_reorg (fst Sc) n, snd Sc)
+    end.
+  Definition s_run (Sc : spec * N) (ops : list (@hop V)) : spec * N := fold_left s_step ops Sc.
+
+  Lemma ReprS_step h Sp c o h' :
+    ReprS h Sp c -> h_step veq W h o = Ok h' ->
+    ReprS h' (fst (s_step (Sp, c) o)) (snd (s_step (Sp, c) o)).
+  Proof.
+    intros (fl & R & Hhd) Hstep. destruct o as [b v|b|n]; cbn [h_step s_step fst snd] in *.
+    - destruct (Repr_set h Sp c fl b v h' R Hstep) as (fl' & R' & _ & Hh). exists fl'. auto.
+    - destruct (Repr_unset h Sp c fl b h' R Hstep) as (fl' & R' & _ & Hh). exists fl'. auto.
+    - destruct (N.le_gt_cases fl n) as [Hle|Hgt].
+      + destruct (Repr_reorg h Sp c fl n R Hle) as (h2 & Hr & R' & Hh).
+        rewrite Hr in Hstep. injection Hstep as <-. exists fl. split; [assumption|congruence].
+      + rewrite (reorg_below_head_panics h fl n (r_sorted _ _ _ _ R) Hhd Hgt) in Hstep. discriminate.
+  Qed.
+
+  Theorem history_run_refines init ops h :
+    h_run veq W (h_new init) ops = Ok h ->
+    ReprS h (fst (s_run (fun _ => init, 0) ops)) (snd (s_run (fun _ => init, 0) ops)).
+  Proof.
+    assert (G : forall ops h0 Sp c h, ReprS h0 Sp c -> h_run veq W h0 ops = Ok h ->
+                ReprS h (fst (s_run (Sp, c) ops)) (snd (s_run (Sp, c) ops))).
+    { intros ops0. induction ops0 as [|o ops0 IH]; intros h0 Sp c h1' R Hrun.
+      - cbn in Hrun. injection Hrun as <-. exact R.
+      - cbn [h_run] in Hrun. destruct (h_step veq W h0 o) as [h1| |] eqn:Hs; cbn [rbind] in Hrun; try discriminate.
+        pose proof (ReprS_step h0 Sp c o h1 R Hs) as R1.
+        unfold s_run. cbn [fold_left]. destruct (s_step (Sp, c) o) as [Sp1 c1] eqn:E.
+        apply (IH h1 Sp1 c1 h1' R1 Hrun). }
+    intros Hrun. apply (G ops (h_new init) (fun _ => init) 0 h); [|assumption].
+    exists 0. split; [apply Repr_new|reflexivity].
+  Qed.
+
+  (* What ReprS gives the user of a history. *)
+  Theorem ReprS_facts h Sp c :
+    ReprS h Sp c ->
+    (* latest is the abstract value at (and after) the clock *)
+    (forall m, c <= m -> h_latest h = Ok (Sp m)) /\
+    (* at most W + 1 versions are kept *)
+    N.of_nat (length h) <= W + 1 /\
+    (* a rollback is never silently wrong: it panics, or it yields exactly the value as of n *)
+    (forall n, h_reorg h n = Panic \/
+               exists h', h_reorg h n = Ok h' /\ ReprS h' (s_reorg Sp n) c /\
+                          h_latest h' = Ok (Sp n)) /\
+    (* and inside the window it does not panic *)
+    (forall n, c <= n + W -> h_reorg h n <> Panic).
+  Proof.
+    intros (fl & R & Hhd).
+    assert (Hflc : fl <= c) by (destruct (r_floor _ _ _ _ R); lia).
+    split; [|split; [|split]].
+    - intros m Hm. apply (Repr_latest h Sp c fl m R Hm). lia.
+    - apply (Repr_length h Sp c fl R).
+    - intros n. destruct (N.le_gt_cases fl n) as [Hle|Hgt].
+      + right. destruct (Repr_reorg h Sp c fl n R Hle) as (h2 & Hr & R' & Hh).
+        exists h2. split; [assumption|]. split; [exists fl; split; [assumption|congruence]|].
+        rewrite (Repr_latest h2 (s_reorg Sp n) c fl (N.max c n) R') by lia.
+        unfold s_reorg. f_equal. f_equal. lia.
+      + left. apply (reorg_below_head_panics h fl n (r_sorted _ _ _ _ R) Hhd Hgt).
+    - intros n Hn. pose proof (window_above_floor h Sp c fl n R Hn) as Hle.
+      destruct (Repr_reorg h Sp c fl n R Hle) as (h2 & Hr & _). rewrite Hr. discriminate.
+  Qed.
 End HistoryP.
